@@ -9,6 +9,7 @@ def showErr (e : Err) : String := "err " ++ e.name
 
 def evStr : Ev → String
   | .called l => s!"c{l}"
+  | .sender l p => s!"s{l}:" ++ (match p with | some o => toString o | none => "none")
   | .pub l _ m => s!"p{l}:{m}"
   | .priv l _ m c d => s!"q{l}:{m}:{c}:{Proto.toHex (d.drop 22)}"
 
@@ -22,31 +23,28 @@ def parseDec (s : String) : Option (Nat → Bytes → Dec) :=
     | ["ok", h] => (Proto.ofHex? h).map (fun m => fun _ _ => .ok m)
     | _ => none
 
-def worstEnv : Env := { pubRaises := fun _ _ _ => true, privRaises := fun _ _ _ _ => true, relayRaises := fun _ _ => true }
+structure St where
+  reg : Registry := {}
+  net : NetS := {}
+  fx : List (Nat × List RegOp) := []
 
-def step (r : Registry) (toks : List String) : Registry × String :=
+def parseOp (t : String) : Option RegOp :=
+  match Proto.splitChar t ':' with
+  | ["add", l] => l.toNat?.map RegOp.add
+  | ["rm", l] => l.toNat?.map RegOp.rm
+  | ["addp", l, h] => do
+    let x ← l.toNat?
+    let p ← Proto.ofHex? h
+    pure (RegOp.addp x p)
+  | ["open", b] => some (RegOp.setOpen (b == "1"))
+  | _ => none
+
+def worstEnv (fx : List (Nat × List RegOp)) : Env :=
+  { pubRaises := fun _ _ _ => true, privRaises := fun _ _ _ _ => true, relayRaises := fun _ _ => true,
+    effects := fun l _ => ((fx.find? (·.1 == l)).map (·.2)).getD [] }
+
+def regStep (r : Registry) (toks : List String) : Registry × String :=
   match toks with
-  | ["dec", cls, hex, off] =>
-    (r, (do
-      let fs ← lookupFmt cls
-      let d ← Proto.ofHex? hex
-      let o ← off.toNat?
-      pure (match unpackListAt fs d o with
-        | .ok (vs, e) => s!"ok {e} {renderAll vs}"
-        | .error e => showErr e)).getD "bad-op")
-  | ["decl", consume, classes, hex, off] =>
-    (r, (do
-      let fss ← (Proto.splitChar classes ',').mapM lookupFmt
-      let d ← Proto.ofHex? hex
-      let o ← off.toNat?
-      pure (match unpackPayloadsAt fss d o (consume == "1") with
-        | .ok (vss, rem) => s!"ok {"|".intercalate (vss.map renderAll)} rem={Proto.toHex rem}"
-        | .error e => showErr e)).getD "bad-op")
-  | ["snap", hex] =>
-    (r, match Proto.ofHex? hex with
-      | some d => renderAll (loadSnapshot d)
-      | none => "bad-op")
-  | ["reset"] => ({}, "ok")
   | ["ov", lid, pfx, pub, priv, tun] =>
     match (do
       let l ← lid.toNat?
@@ -94,14 +92,63 @@ def step (r : Registry) (toks : List String) : Registry × String :=
     | some l => (r.removeListener l, "ok")
     | none => (r, "bad-op")
   | ["open", b] => ({ r with isOpen := b == "1" }, "ok")
-  | ["notify", hex, dec] =>
-    match Proto.ofHex? hex, parseDec dec with
-    | some d, some f => (r, outStr (notify worstEnv f r d))
-    | _, _ => (r, "bad-op")
-  | ["direct", lid, hex, dec] =>
-    match lid.toNat?, Proto.ofHex? hex, parseDec dec with
-    | some l, some d, some f => (r, outStr (listenerOnPacket worstEnv f r.table l d))
-    | _, _, _ => (r, "bad-op")
   | _ => (r, "bad-op")
 
-def main : IO Unit := Proto.run ({} : Registry) step
+def netStep (n : NetS) (toks : List String) : Option NetS :=
+  match toks with
+  | ["new", oid, key, a] => do
+    let o ← oid.toNat?
+    let k ← key.toNat?
+    let b ← Proto.ofHex? a
+    pure (n.newObj o k b)
+  | ["addv", oid] => oid.toNat?.map n.addVerified
+  | ["rmp", oid] => oid.toNat?.map n.removePeer
+  | ["rma", a] => (Proto.ofHex? a).map n.removeByAddress
+  | ["seta", oid, a] => do
+    let o ← oid.toNat?
+    let b ← Proto.ofHex? a
+    pure (n.setAddr o b)
+  | _ => none
+
+def step (st : St) (toks : List String) : St × String :=
+  match toks with
+  | ["dec", cls, hex, off] =>
+    (st, (do
+      let fs ← lookupFmt cls
+      let d ← Proto.ofHex? hex
+      let o ← off.toNat?
+      pure (match unpackListAt fs d o with
+        | .ok (vs, e) => s!"ok {e} {renderAll vs}"
+        | .error e => showErr e)).getD "bad-op")
+  | ["decl", consume, classes, hex, off] =>
+    (st, (do
+      let fss ← (Proto.splitChar classes ',').mapM lookupFmt
+      let d ← Proto.ofHex? hex
+      let o ← off.toNat?
+      pure (match unpackPayloadsAt fss d o (consume == "1") with
+        | .ok (vss, rem) => s!"ok {"|".intercalate (vss.map renderAll)} rem={Proto.toHex rem}"
+        | .error e => showErr e)).getD "bad-op")
+  | ["snap", hex] =>
+    (st, match Proto.ofHex? hex with
+      | some d => renderAll (loadSnapshot d)
+      | none => "bad-op")
+  | ["reset"] => ({}, "ok")
+  | "net" :: rest =>
+    match netStep st.net rest with
+    | some n => ({ st with net := n }, "ok")
+    | none => (st, "bad-op")
+  | ["fx", lid, ops] =>
+    match lid.toNat?, (if ops == "-" then some [] else (Proto.splitChar ops ',').mapM parseOp) with
+    | some l, some os => ({ st with fx := (l, os) :: st.fx.filter (·.1 != l) }, "ok")
+    | _, _ => (st, "bad-op")
+  | ["notify", src, hex, dec] =>
+    match Proto.ofHex? src, Proto.ofHex? hex, parseDec dec with
+    | some a, some d, some f =>
+      let r := notify (worstEnv st.fx) f 100000 st.reg st.net a d
+      ({ st with reg := r.2.reg, net := r.2.net }, outStr r.1)
+    | _, _, _ => (st, "bad-op")
+  | _ =>
+    let (r', reply) := regStep st.reg toks
+    ({ st with reg := r' }, reply)
+
+def main : IO Unit := Proto.run ({} : St) step
